@@ -690,10 +690,10 @@ pub fn churn_par<S: Strat>() {
 
 /// T0 has exited (its node is cooling down); X and Y, both new to the crate, start at the same
 /// time and race for that node while W stores. Each takes a guard, uses it and lets it go.
-pub fn churn_two<S: Strat>(with_rcu: bool) {
+pub fn churn_two<S: Strat>(with_rcu: bool, with_map: bool) {
     // Thread churn is the subject: whatever fails here is (also) a C11 failure, and what is at
     // stake when two threads end up with one node is the protection of their guards (C10).
-    rt::set_context_tag(if with_rcu { "C11,C06" } else { "C11,C10" });
+    rt::set_context_tag(if with_rcu { "C11,C06" } else if with_map { "C11,C17" } else { "C11,C10" });
     let c = Cont::<S>::new(0, V::new(1));
     let fil = filler::<S>();
     let w = {
@@ -734,6 +734,23 @@ pub fn churn_two<S: Strat>(with_rcu: bool) {
                 let l = old.peek_label();
                 use_value(&old, l, "rcu result of a thread that has just claimed its node");
                 drop_value(old);
+            } else if with_map {
+                use arc_swap::access::{Access, Map};
+                let m = Map::new(&c.sw, |v: &V| v);
+                rt::call_begin("Map::load", "C08", LOAD_CAP);
+                let g = Access::load(&m);
+                rt::call_end();
+                let first = g.peek_label();
+                for k in 0..2 {
+                    let got = g.get();
+                    if got != first && !rt::draining() {
+                        rt::violation("C17", "snapshot", format!("a projection guard taken on value #{} reads #{} at its deref number {}", first, got, k + 1));
+                    }
+                }
+                world::observe(first + 100 * i);
+                rt::call_begin("drop(MapGuard)", "C09", DROP_CAP);
+                drop(g);
+                rt::call_end();
             } else {
                 let g = load(&c);
                 let l = g.peek_label();
@@ -1588,6 +1605,8 @@ pub fn cache_conc<S: Strat>(fill: bool, aba: bool) {
 /// guard keeps denoting (and keeps alive) one snapshot.
 pub fn map_conc<S: Strat>(fill: bool) {
     use arc_swap::access::{Access, Map};
+    // whatever fails while a projection guard is in use is (also) a failure of C17
+    rt::set_context_tag("C17");
     let c = Cont::<S>::new(0, V::new(1));
     let fil = filler::<S>();
     let w = {
